@@ -531,4 +531,73 @@ theorem server_hello_lost_exports_nothing (hk : KeysDead P K)
   exact dead_flow P K (fun _ => True) (fun _ => True) henv trivial ds s
     (fun d hd p hp b => ⟨fun ct hct => rej d hd p hp ct hct, fun _ _ _ _ _ _ _ _ _ _ _ _ => trivial⟩) hok h0
 
+/-! ### concrete instances (toy AEAD and derivations of `C02Session.Ex`, kernel-evaluated) -/
+namespace Ex
+open TLX.Props.C02Session.Ex TLX.Quic.SessionToy TLX.Spec.QuicSender TLX.Spec.QuicFrames
+
+def iniKeyC : DirKeys := ⟨toyBytes 13 [[1], [0xd0, 0xd1]] 16, toyBytes 14 [[1], [0xd0, 0xd1]] 12⟩
+
+/-- a client Initial packet (DCID d0d1) carrying the CRYPTO data `data` at offset `off` -/
+def clientInitial (off : Nat) (data : Bytes) : Pkt :=
+  emit Toy.laws.aeadSeal .aesgcm iniKeyC
+    { level := .initial, srv := false, ts := 1, pn := 0, pnLen := 1, dcid := [0xd0, 0xd1], scid := [0xc1],
+      frames := [.crypto ⟨off, w1⟩ w1 data, .padding 5] }
+
+/-- a conformant server 1-RTT packet (generation 0, STREAM data `hi`), and a client one -/
+def serverShort : Pkt :=
+  emit1 params Toy.laws sel .v1 k0
+    { level := .oneRtt, srv := true, ts := 30, pn := 0, pnLen := 1, frames := frames1, dcid := [], gen := 0 }
+def clientShort : Pkt :=
+  emit1 params Toy.laws sel .v1 k0
+    { level := .oneRtt, srv := false, ts := 31, pn := 0, pnLen := 1, frames := frames1, dcid := [0x51], gen := 0 }
+
+/-- the whole ClientHello of the toy parser is `01 13 01 07`; here the capture only has its tail (offset 1): the first
+    fragment is lost. Then a server and a client 1-RTT packet, correctly protected. -/
+def lostFragment : List Dgram :=
+  [⟨true, [0xd0, 0xd1], .v1, [clientInitial 1 [0x13, 1, 7]]⟩, ⟨false, [], .v1, [serverShort]⟩, ⟨true, [0x51], .v1, [clientShort]⟩]
+
+set_option maxRecDepth 100000 in
+/-- ClientHello fragment lost: nothing raises, no key is ever installed, both 1-RTT packets are dropped; the buffer
+    holds the one CRYPTO frame of the Initial packet, no STREAM data. -/
+theorem client_hello_fragment_lost :
+    (run params (St.init params) lostFragment).2 = none ∧
+    (run params (St.init params) lostFragment).1.decApp = none ∧
+    (run params (St.init params) lostFragment).1.decHandshake = none ∧
+    (run params (St.init params) lostFragment).1.out.map (·.ptype) = [.initial] := by
+  decide +kernel
+
+/-- the ClientHello is complete, the ServerHello (and everything else of the server's first flight) is lost -/
+def lostServerHello : List Dgram :=
+  [⟨true, [0xd0, 0xd1], .v1, [clientInitial 0 [1, 0x13, 1, 7]]⟩, ⟨false, [], .v1, [serverShort]⟩]
+
+set_option maxRecDepth 100000 in
+/-- **Why `server_hello_lost_exports_nothing` needs `KeysDead`.** ServerHello lost, but the keys were derived at the
+    ClientHello — for the first offered suite, which here is the suite in use: the Application decryptor exists, and the
+    server's 1-RTT packet IS decrypted and exported (its STREAM frame follows the ClientHello's CRYPTO frame in the buffer). -/
+theorem server_hello_lost_first_offered_exports :
+    (run params (St.init params) lostServerHello).2 = none ∧
+    ((run params (St.init params) lostServerHello).1.decApp.map List.length) = some 1 ∧
+    (run params (St.init params) lostServerHello).1.out.map (·.ptype) = [.initial, .rtt1] := by
+  decide +kernel
+
+/-- the parser hypotheses of `client_hello_fragment_lost_exports_nothing` hold for the toy parser with
+    `T` = "nothing reported" and `A` = "CRYPTO data that does not begin a ClientHello" -/
+theorem fragment_hyps :
+    (∀ (t : Bool) (c : CryptoIn), t = false → c.data.head? ≠ some 1 → (C02Session.Ex.params.tlsUpdate t c).1 = false) ∧
+    (∀ t : Bool, t = false → C02Session.Ex.params.tlsNewData t = false) ∧ C02Session.Ex.params.tlsInit = false := by
+  refine ⟨fun t c ht hc => ?_, fun t ht => ht, rfl⟩
+  subst ht
+  simp only [C02Session.Ex.params]
+  split
+  · rfl
+  · cases hd : c.data with
+    | nil => rfl
+    | cons x r =>
+      simp only [hd, List.head?_cons, ne_eq, Option.some.injEq] at hc
+      split
+      · rename_i heq; simp only [List.cons.injEq] at heq; exact absurd heq.1 hc
+      · rfl
+
+end Ex
+
 end TLX.Props.C02Loss
